@@ -1,12 +1,20 @@
 """C09 — private-batch output hides slot order and dummy contents (DESIGN.md §5 C09)."""
-from . import pb
+from . import pb, gadgets_rules
 
 
 def run(ck):
     ck.explanation = ("C09: gate-dominance in the term DAG — every flow from a per-slot child field to the output vector or a constraint operand "
-                      "passes that slot's dummy gate with the same index; nullifier region comes out of the sorting network; header only from the first-real scan")
-    ck.not_decided = ["permutation invariance as a semantic statement", "prover-side shuffle (C15)"]
+                      "passes that slot's dummy gate with the same index; nullifier region comes out of the sorting network, and that network is "
+                      "the full sort (canonical ingress, lexicographic comparator, one-flag compare-and-swap, n rounds of odd-even transposition, "
+                      "egress recombination — the sort_digests4 obligations shared with C31); header only from the first-real scan")
+    ck.not_decided = ["permutation invariance as a semantic statement", "prover-side shuffle (C15)",
+                      "that n rounds of odd-even transposition sort every list (classical result about the network shape that is checked)"]
     ob, v = pb.analyse(ck)
     if getattr(v, "D", None) is not None and getattr(v, "seq", None) is not None:
         pb.gate_analysis(ob, v)
     ob.emit(ck, "C09")
+    # "permuting the slots never changes the nullifier region" needs the region to be *sorted* for every input order: the shape of the
+    # sorting gadget is a necessary condition of this property as much as of C31 (seed C09d: one round fewer leaves some orders unsorted)
+    gob = gadgets_rules.analyse(ck)
+    gob.emit(ck, "C09")
+    ck.floor("TERM", "gadget/sort-obligations", len([1 for it in gob.items if "C09" in it[0]]), 6, "sort_digests4 obligations evaluated for C09")
